@@ -228,6 +228,13 @@ func Locksets(events []*pw.Event, entry Held) []Held {
 }
 
 // funcDeclOf finds the declaration of Type.Method / Func.
+func (c *Ctx) declPos(name string) string {
+	if fd, _ := c.funcDecl(name); fd != nil {
+		return c.Pos(fd.Pos())
+	}
+	return ""
+}
+
 func (c *Ctx) funcDecl(name string) (*ast.FuncDecl, *types.Func) {
 	for _, f := range c.Pkg.Syntax {
 		for _, d := range f.Decls {
